@@ -12,7 +12,7 @@ for f in sorted(glob.glob(os.path.join(ROOT, "seeded", "*", "meta.json"))):
         for l in r.get("lines", []):
             if "signature:" in l:
                 sigs.append(p + ": " + l.split("signature:")[1].split("(")[0].strip())
-    caught = ", ".join(d.get("caught_by", [])) or "**missed**"
+    caught = ", ".join("%s%s" % (c, (" (seed %d)" % d["checks"][c]["seed"]) if d["checks"].get(c, {}).get("seed") else "") for c in d.get("caught_by", [])) or "**missed**"
     hist = d.get("history") or []
     first = hist[0].get("caught_by") if hist else d.get("caught_by", [])
     first_s = (", ".join(first) if first else "**missed**")
